@@ -506,6 +506,16 @@ def run_internal(ctx, rng, spec, root):
                                                           lua_writer_args={'keep_names_from_file': os.path.join(root, 'no_such_names.txt')}),
                         {'injector': 'explicit_label_then_failure', 'fmt': fmt, 'exists': exists, 'readonly': readonly},
                         'explicit_label_then_failure', fired=always)
+                # ... and the failure is the PNG side's own: code that cannot be encoded, a label source that is not a picture
+                attempt(ctx, dest, lambda: p8file.to_file(big, dest.path, label_fname=labelsrc),
+                        {'injector': 'explicit_label_oversize_code', 'fmt': fmt, 'exists': exists, 'readonly': readonly},
+                        'explicit_label_then_failure', fired=always)
+                notpng = os.path.join(root, 'label_source_not_a_picture.png')
+                with open(notpng, 'wb') as fh:
+                    fh.write(b'this is not a PNG file\n' * 20)
+                attempt(ctx, dest, lambda: p8file.to_file(g, dest.path, label_fname=notpng),
+                        {'injector': 'explicit_label_not_a_picture', 'fmt': fmt, 'exists': exists, 'readonly': readonly},
+                        'explicit_label_then_failure', fired=always)
             ctx.feature('internal_failures_%s' % ('absent' if not exists else 'readonly' if readonly else 'zero_length' if empty else 'exists'))
             shutil.rmtree(dest.dir, ignore_errors=True)
     ctx.sample({'internal_failure_sources': ['oversize_code', 'missing_names_file', 'build_unparseable_source', 'build_missing_require']})
